@@ -64,6 +64,12 @@ def oracle(case, observed):
             if rej is not None:
                 shown = {x for _, x in exp} | {m}
                 leaked = [x for x in shown if x and x in (content or "")]
+                # event level: no utterance event may carry a text an output rail rejected
+                leaked_ev = [x for x in shown if x and any(x in (u or "") for u in ob.get("utter", []))]
+                if leaked_ev and not leaked:
+                    sig = ("v2-output-rails-flag-stuck-after-block" if ver == "v2" and flag_was_set
+                           else f"{ver}-blocked-text-uttered-in-returned-events")
+                    out.append((sig, f"turn {t}: output rail {rej} rejected, returned utterance events {ob.get('utter')} contain {leaked_ev}", t))
                 if leaked:
                     sig = ("v2-output-rails-flag-stuck-after-block" if ver == "v2" and flag_was_set
                            else f"{ver}-blocked-text-in-reply")
@@ -94,4 +100,4 @@ def run(tier, seed, replay=None):
         "message | next-step + LLM message); every output verdict vector over {accept,reject,rewrite} (2.x: {accept,reject}) at "
         "every position of 4-turn conversations (<=2 output rails), other turns seeded-random; thorough adds <=4 rails, 4-5 "
         "turns, salted texts. non-trivial = >=2 rails, >=2 turns and at least one reject/rewrite verdict; distinct by hash",
-        D.COMMON_ASSUMPTIONS, D.OBSERVATIONS)
+        D.COMMON_ASSUMPTIONS, D.OBSERVATIONS, library=True)
